@@ -25,6 +25,9 @@ consumes it (`c20_express_agrees_with_evaluated_source`, `c20_get_value_agrees_w
   * constructTable : allow_mutations -> what `Genome(genes=[t=1 (LOW), u=3, t=2 (HIGH)])` stores for the duplicated name
                     (value, level, number of genes, log length).
 
+  * statsTable     : (allow_mutations, callback absent / approves / refuses) -> get_statistics() of parent and child after a
+                    fixed history of approved / refused mutations, rollbacks, a re-add, a silencing and a replication.
+
 Fail closed: any exception while evaluating a point, or an observation outside the expected vocabulary, makes that
 entry `none`; the consuming theorem then fails.
 """
@@ -254,13 +257,48 @@ def eval_construct(m):
     return rows
 
 
+STATS_ANS = [None, "approve", "refuse"]
+
+
+def eval_stats(m):
+    """get_statistics() after a fixed history that logs approved / refused mutations, rollbacks (approved or refused), a
+    re-add (refused or accepted), an expression change and a replication with a requested mutation:
+    (total_genes, generation, mutations_count, approved_mutations, number of SILENCED expression states; and generation,
+    mutations_count, approved_mutations of the child).  `hash` / `parent_hash` must be get_hash() / the parent's hash."""
+    rows = []
+    for allow in (False, True):
+        for ans in STATS_ANS:
+            try:
+                g = m.Genome(genes=[m.Gene(name="t", value=1), m.Gene(name="u", value=3, required=True)],
+                             allow_mutations=allow, on_mutation=_cb(ans), silent=True)
+                g.mutate("t", 7)
+                g.mutate("u", 9)
+                g.rollback_mutation("t")
+                g.add_gene(m.Gene(name="t", value=5))
+                g.rollback_mutation("t")
+                g.silence_gene("u")
+                h = g.get_hash()
+                c = g.replicate({"t": 8})
+                s, sc = g.get_statistics(), c.get_statistics()
+                r = (s["total_genes"], s["generation"], s["mutations_count"], s["approved_mutations"],
+                     s["by_expression"].get("SILENCED", 0), sc["generation"], sc["mutations_count"], sc["approved_mutations"])
+                if not all(type(x) is int and x >= 0 for x in r) or s["hash"] != h or g.get_hash() != h \
+                        or sc["parent_hash"] != h or sc["hash"] != c.get_hash() or s["parent_hash"] is not None:
+                    r = None
+            except Exception:  # noqa
+                r = None
+            rows.append(((allow, ans), r))
+    return rows
+
+
 def render(m) -> tuple[str, dict]:
     info = {"poisoned": []}
     if m is None:
-        ex, gv, gt, rp, cs = [], [], [], [], []
+        ex, gv, gt, rp, cs, stt = [], [], [], [], [], []
         info["poisoned"].append("module not importable")
     else:
         ex, gv, gt, rp, cs = eval_express(m), eval_get_value(m), eval_gate(m), eval_replicate(m), eval_construct(m)
+        stt = eval_stats(m)
     out = ("import Operon.Model.Genome\n"
            "/- GENERATED by harness/vf/extract/eval_genome.py on every run by EVALUATING the Genome class of the tree under\n"
            "   test on finite domains (nothing is parsed); do not edit.  `none` = the evaluation of that point failed or its\n"
@@ -323,6 +361,19 @@ def render(m) -> tuple[str, dict]:
         else:
             lines.append(f"  ({_lean_bool(allow)}, some ({r[0]}, some .{LEVELS[r[1]]}, {r[2]}, {r[3]}))")
     out += ",\n".join(lines) + "]\n\n"
+    out += ("/-- (allow_mutations, callback: none = absent) ↦ `get_statistics()` after mutate t 7, mutate u 9, rollback t,\n"
+            "    add_gene t 5, rollback t, silence u, replicate {t: 8}: (total_genes, generation, mutations_count,\n"
+            "    approved_mutations, SILENCED states; child's generation, mutations_count, approved_mutations) -/\n"
+            "def statsTable : List ((Bool × Option Ans) × Option (List Nat)) := [\n")
+    lines = []
+    for (allow, ans), r in stt:
+        key = f"({_lean_bool(allow)}, {_opt(ans, lambda a: '.' + a)})"
+        if r is None:
+            info["poisoned"].append(f"stats {allow} {ans}")
+            lines.append(f"  ({key}, none)")
+        else:
+            lines.append(f"  ({key}, some [{', '.join(str(x) for x in r)}])")
+    out += ",\n".join(lines) + "]\n\n"
     out += "end Operon.Genome.Gen\n"
     return out, info
 
@@ -330,7 +381,7 @@ def render(m) -> tuple[str, dict]:
 def run(lean_dir: Path, write_if_changed, module=None) -> list[dict]:
     text, info = render(module)
     changed = write_if_changed(Path(lean_dir) / "Operon/Gen/GenomeTables.lean", text)
-    return [{"id": "eval-genome", "facts_changed": bool(changed), "points": 50 + 5 + 48 + 64 + 2, "poisoned": info["poisoned"]}]
+    return [{"id": "eval-genome", "facts_changed": bool(changed), "points": 50 + 5 + 48 + 64 + 2 + 6, "poisoned": info["poisoned"]}]
 
 
 if __name__ == "__main__":
